@@ -75,7 +75,32 @@ func (FinalizeProposal) Validate(ctx *action.Context, signedTx action.SignedTx) 
 }
 
 func (FinalizeProposal) ProcessCheck(ctx *action.Context, tx action.RawTx) (bool, action.Response) {
-	return runFinalizeProposal(ctx, tx)
+	// The mempool check must not run the finalisation itself: for a configuration proposal it calls
+	// the governance update functions, which overwrite the in-memory option copies (fee pool,
+	// proposal and domain options) that block execution reads. It only checks that there is a
+	// completed proposal to finalise.
+	finalizedProposal := FinalizeProposal{}
+	err := finalizedProposal.Unmarshal(tx.Data)
+	if err != nil {
+		return false, action.Response{}
+	}
+	proposals := ctx.ProposalMasterStore.Proposal
+	for _, state := range []governance.ProposalState{governance.ProposalStateFinalized, governance.ProposalStateFinalizeFailed} {
+		if _, err := proposals.WithPrefixType(state).Get(finalizedProposal.ProposalID); err == nil {
+			return true, action.Response{Events: action.GetEvent(finalizedProposal.Tags(), "finalize_proposal_already")}
+		}
+	}
+	proposal, err := proposals.WithPrefixType(governance.ProposalStatePassed).Get(finalizedProposal.ProposalID)
+	if err != nil {
+		proposal, err = proposals.WithPrefixType(governance.ProposalStateFailed).Get(finalizedProposal.ProposalID)
+		if err != nil {
+			return helpers.LogAndReturnFalse(ctx.Logger, governance.ErrProposalNotExists, finalizedProposal.Tags(), err)
+		}
+	}
+	if proposal.Status != governance.ProposalStatusCompleted {
+		return helpers.LogAndReturnFalse(ctx.Logger, governance.ErrStatusNotCompleted, finalizedProposal.Tags(), err)
+	}
+	return helpers.LogAndReturnTrue(ctx.Logger, finalizedProposal.Tags(), "finalize_proposal_check")
 }
 
 func (FinalizeProposal) ProcessDeliver(ctx *action.Context, tx action.RawTx) (bool, action.Response) {
